@@ -11,6 +11,7 @@ type vJ struct {
 	vals []*vJ
 	raw  []byte // token text of the whole value
 	rawKeys [][]byte // object: key tokens including the quotes
+	rawSuffix bool // expectation only: compare the trailing code points only (text starts with a run-time type name)
 	unq  bool   // expectation only: the text layout shows this value without its quotes
 }
 
@@ -255,6 +256,14 @@ func vJEqual(a, b *vJ) bool {
 	}
 	switch a.kind {
 	case 's':
+		if b.rawSuffix {
+			// the expected text ends with the marshaler's own message; the prefix names the type
+			k := vIndexCP(b.s, ':')
+			if k < 0 || len(a.s) < len(b.s)-k {
+				return false
+			}
+			return vEqualCPs(a.s[len(a.s)-(len(b.s)-k):], b.s[k:])
+		}
 		return vEqualCPs(a.s, b.s)
 	case 'n':
 		return vBytesEqual(a.num, b.num)
@@ -277,4 +286,15 @@ func vJEqual(a, b *vJ) bool {
 		}
 	}
 	return true
+}
+
+// vIndexCP: index of the last occurrence of c among the first 60 code points (the type-name prefix), or -1.
+func vIndexCP(s []int32, c int32) int {
+	r := -1
+	for i := 0; i < len(s) && i < 60; i++ {
+		if s[i] == c {
+			r = i
+		}
+	}
+	return r
 }
